@@ -56,7 +56,19 @@ pub enum Case {
     State { message: String, value: Val, encoding: String },
     LegacyArtifact { path: String },
     /// an OCI archive written by another conforming implementation (published media types)
-    ForeignArchive { kind: u8, annotated: bool },
+    ForeignArchive {
+        kind: u8,
+        annotated: bool,
+        /// 0 = the all-default message (encodes to zero bytes), 1 = a non-trivial one
+        #[serde(default = "one")]
+        variant: u8,
+    },
+    /// a sample set in the field layout written by earlier releases (see C15), read back sample by sample
+    LegacySampleSet { samples: Vec<(f64, u8)>, sense: i32 },
+}
+
+fn one() -> u8 {
+    1
 }
 
 // ------------------------------------------------------------------------------------------
@@ -771,10 +783,21 @@ pub fn check_case(l: &mut Local, case: &Case) {
             });
             check_state(l, &schema, case);
         }
-        Case::ForeignArchive { kind, annotated } => {
+        Case::ForeignArchive { kind, annotated, variant } => {
             l.evaluations += 1;
-            l.outcome(&("foreign", kind, annotated));
-            super::c20::check_foreign_layers(l, case, &[super::c20::LayerRep { kind: *kind, variant: 1, annotated: *annotated }], "foreign-archive");
+            l.outcome(&("foreign", kind, annotated, variant));
+            super::c20::check_foreign_layers(l, case, &[super::c20::LayerRep { kind: *kind, variant: *variant, annotated: *annotated }], "foreign-archive");
+        }
+        Case::LegacySampleSet { samples, sense } => {
+            l.outcome(&("legacy-sample-set", samples.len(), sense));
+            let mut inner = Local::new();
+            super::c15::check_case(&mut inner, &super::c15::Case::Best { samples: samples.clone(), sense: *sense, legacy: true, by_value: false });
+            l.evaluations += inner.evaluations;
+            l.transitions += inner.transitions;
+            l.nontrivial += inner.nontrivial;
+            for v in inner.violations.into_values() {
+                l.violation(&format!("legacy-sample-set/{}", v.signature), || json!(case), v.detail);
+            }
         }
         Case::LegacyArtifact { path } => {
             l.evaluations += 1;
@@ -919,8 +942,24 @@ pub fn run(ctx: &Ctx) -> Finish {
     ctx.seq(|l| {
         for kind in 0..4u8 {
             for annotated in [false, true] {
+                for variant in [0u8, 1] {
+                    l.states += 1;
+                    check_case(l, &Case::ForeignArchive { kind, annotated, variant });
+                }
+            }
+        }
+        // sample sets in the field layout of earlier releases: all 9^3 three-sample sets, both senses
+        let values = [-1.0, 2.0, 5.0];
+        for code in 0..729usize {
+            let mut c = code;
+            let mut samples = vec![];
+            for _ in 0..3 {
+                samples.push((values[c % 3], ((c % 9) / 3) as u8));
+                c /= 9;
+            }
+            for sense in [1, 2] {
                 l.states += 1;
-                check_case(l, &Case::ForeignArchive { kind, annotated });
+                check_case(l, &Case::LegacySampleSet { samples: samples.clone(), sense });
             }
         }
     });
